@@ -327,7 +327,7 @@ func (ch *channel) receivedSegData(rsd recSegData) {
 			for i := uint32(0); i < sdb.nrItems(); i++ {
 				if name == ch.masterTrName && ch.masterSegDuration == 0 {
 					// Evaluate the first two durations to see if they are consecutive with same duration. If not, drop the oldest one.
-					if sdb.items[1].seqNr != sdb.items[0].seqNr+1 || sdb.items[1].dur != sdb.items[0].dur {
+					if sdb.items[1].seqNr != sdb.items[0].seqNr+1 || sdb.items[1].dur != sdb.items[0].dur || sdb.items[1].dur == 0 {
 						ch.segTimesGen.dropSeqNr(sdb.items[0].seqNr)
 						return
 					}
